@@ -468,8 +468,8 @@ def replay(ctx, rp):
         return C01.replay(ctx, rp)
     sc = case.get('scenario', case)
     if 'roots' not in sc:
-        print('no scenario in replay file')
-        return False
+        from harness.check import NotReplayable
+        raise NotReplayable('no scenario in the replay file')
     from harness import dsl
     tr, info = dsl.run_scenario(sc)
     res = run_configs(ctx, [sc], CONFIGS + THOROUGH_EXTRA)
